@@ -567,6 +567,7 @@ func first(a, _ []byte) []byte { return a }
 //@ spec LeafOK_alpha(o) = as(alphaLeafNode, o).key.obj != nil && allocated(as(alphaLeafNode, o).key.obj) && 0 <= as(alphaLeafNode, o).key.idx && as(alphaLeafNode, o).key.idx + as(alphaLeafNode, o).len <= blen(as(alphaLeafNode, o).key.obj)
 //@ spec HeapOK_alpha() = forallref(o, implies(inT(o) && allocated(o) && o != nil && !pooled(o), NodeOK(o) && implies(atype(o) == leafT(), LeafOK_alpha(o))))
 //@ spec WF1_alpha(t) = t != nil && allocated(t) && atype(t) == typeid(alphaSortedTree) && leafT() == typeid(alphaLeafNode) && rootOK(t.root) && HeapOK_alpha()
+//@ spec WF1in_alpha(t) = WF1_alpha(t) && LinkedLive() && rootLive(t.root)
 //@ spec sizeSane(t) = 0 <= t.size && t.size < 4611686018427387904
 
 //@ func (*alphaLeafNode[V]).getKey
@@ -582,11 +583,11 @@ func first(a, _ []byte) []byte { return a }
 //@   opt bind K=[]byte
 //@   opt casts on
 //@   opt extent on
-//@   requires WF1_alpha(t)
+//@   requires WF1in_alpha(t)
 //@   ensures[pure] frame()
 //@   loop 1 (depth)
 //@     invariant 0 <= depth && depth <= len(keyS)
-//@     invariant n.pointer == nil || okRef(n)
+//@     invariant liveRef(n)
 //@     decreases len(keyS) - depth
 
 //@ spec isNodeT(o) = atype(o) == typeid(node4) || atype(o) == typeid(node16) || atype(o) == typeid(node48) || atype(o) == typeid(node256)
@@ -601,7 +602,7 @@ func first(a, _ []byte) []byte { return a }
 //@   opt bind K=[]byte
 //@   opt casts on
 //@   opt extent on
-//@   requires WF1_alpha(t) && sizeSane(t)
+//@   requires WF1in_alpha(t) && sizeSane(t)
 //@   assume_at_call (*nodeRef).deleteChild : implies(isMerge(*ptr) && survT(*ptr, b) != 4, survP(*ptr, b) != ptr.obj && as(node, survP(*ptr, b)).prefixLen + as(node4, (*ptr).pointer).prefixLen + 1 < 4294967296)
 //@   ensures[wf] WF1_alpha(t)
 //@   ensures[size] t.size == old(t.size) - ite(result, 1, 0)
@@ -609,7 +610,7 @@ func first(a, _ []byte) []byte { return a }
 //@   loop 1 (depth)
 //@     invariant 0 <= depth && depth <= len(keyS)
 //@     invariant n.pointer == (*ref).pointer && n.tag == (*ref).tag
-//@     invariant n.pointer == nil || okRef(n)
+//@     invariant liveRef(n)
 //@     invariant slotOf(ref, t) && ref.obj != n.pointer
 //@     invariant n.tag != 4 || ref.obj == t
 //@     decreases len(keyS) - depth
@@ -654,3 +655,22 @@ func first(a, _ []byte) []byte { return a }
 //@   loop 3 (idx)
 //@     invariant 0 - 1 <= idx && idx <= 255 && cntP(n256.children, 256) == cntP(n256.children, idx + 1)
 //@     decreases idx + 1
+
+// prefixMismatch: length of agreement between key[depth:] and the compressed path of n;
+// when the path is longer than the 10 inline bytes the comparison continues in the
+// minimum leaf below n. Rung 1: bounds and purity only.
+//@ func prefixMismatch
+//@   opt leaf alphaLeafNode
+//@   opt casts on
+//@   opt extent on
+//@   requires okRef(n) && !pooled(n.pointer) && n.tag != 4 && 0 <= depth && depth <= len(key)
+//@   requires leafT() == typeid(alphaLeafNode) && HeapOK_alpha() && LinkedLive()
+//@   ensures[bound] 0 <= result && depth + result <= len(key)
+//@   ensures[short_path] implies(as(node, n.pointer).prefixLen <= 10, result <= as(node, n.pointer).prefixLen)
+//@   assigns nothing
+//@   loop 1 (idx)
+//@     invariant 0 <= idx && idx <= maxCmp
+//@     decreases maxCmp - idx
+//@   loop 2 (idx)
+//@     invariant 0 <= idx && implies(idx > 0 || maxCmp > 0, idx <= maxCmp || idx <= 10)
+//@     decreases maxCmp - idx
